@@ -357,7 +357,16 @@ class RemoteWorker(Worker, metaclass=RemoteWorkerMeta):
 
             self._child.join(timeout)
             if self._child.is_alive() and force:
-                os.kill(os.getpid(), signal.SIGTERM)
+                # the remote child is already dead at this point, the only thing left is our frontend thread fetching
+                # whatever the child managed to send - give it a moment and then cut it off from the (dead) connection,
+                # there is no reason to kill the calling process because of it
+                self._child.join(1)
+                if self._child.is_alive():
+                    try:
+                        self._socket.shutdown(socket.SHUT_RDWR)
+                    except OSError:
+                        pass
+                    self._child.join(1)
 
             alive = self._child.is_alive()
             if not alive:
